@@ -49,11 +49,15 @@ def main():
     if sys.argv[1:]:
         names = [n for n in names if n.startswith(tuple(sys.argv[1:]))]
     missed = 0
+    groups = {}
+    for n in names:          # seeds of one property run one after the other: they share that property's scratch replay directory
+        groups.setdefault(n.split('-')[0], []).append(n)
     with ThreadPoolExecutor(int(os.environ.get('RESEED_JOBS', '4'))) as tp:
-        for name, res in tp.map(one, names):
-            print('%-55s %s' % (name, res), flush=True)
-            if not res.startswith('exit=1'):
-                missed += 1
+        for results in tp.map(lambda g: [one(n) for n in g], groups.values()):
+            for name, res in results:
+                print('%-55s %s' % (name, res), flush=True)
+                if not res.startswith('exit=1'):
+                    missed += 1
     print('%d seeds, %d not detected' % (len(names), missed))
     return 1 if missed else 0
 
